@@ -102,6 +102,16 @@ def matrix():
     out.append(("ctor/never-assigned", "class C1\n    def f: Int\n    def __init__(self) =>\n        print(1)\n", "reject"))
     out.append(("ctor/assigned-in-one-branch", "class C1\n    def f: Int\n    def __init__(self, c: Bool) =>\n        if c then\n            self.f := 1\n", "reject"))
     out.append(("ctor/assigned-in-both-branches", "class C1\n    def f: Int\n    def __init__(self, c: Bool) =>\n        if c then\n            self.f := 1\n        else\n            self.f := 2\n", "accept"))
+    # an assignment to a field of ANOTHER object with the same name does not assign the field under construction
+    CFG = "class Config\n    def level: Int := 0\n    def other: Int := 0\n"
+    out.append(("ctor/foreign-field-same-name-only", CFG + "class C1\n    def level: Int\n    def __init__(self, cfg: Config) =>\n        cfg.level := 3\n", "reject"))
+    out.append(("ctor/foreign-field-then-read", CFG + "class C1\n    def level: Int\n    def nxt: Int\n    def __init__(self, cfg: Config) =>\n        cfg.level := 3\n        self.nxt := self.level + 1\n        self.level := 2\n", "reject"))
+    out.append(("ctor/foreign-field-then-self", CFG + "class C1\n    def level: Int\n    def __init__(self, cfg: Config) =>\n        cfg.level := 3\n        self.level := cfg.level\n", "accept"))
+    out.append(("ctor/foreign-other-name", CFG + "class C1\n    def level: Int\n    def __init__(self, cfg: Config) =>\n        cfg.other := 3\n        self.level := 1\n", "accept"))
+    out.append(("ctor/local-variable-same-name", "class C1\n    def level: Int\n    def __init__(self) =>\n        def level := 3\n        print(level)\n", "reject"))
+    out.append(("ctor/nullable-needs-no-assignment", "class C1\n    def level: Int?\n    def __init__(self) =>\n        print(1)\n", "accept"))
+    out.append(("ctor/assigned-in-loop-only", "class C1\n    def level: Int\n    def __init__(self) =>\n        for i in 0 .. 2 do\n            self.level := i\n", "reject"))
+    out.append(("ctor/compound-before-assign", "class C1\n    def level: Int\n    def __init__(self) =>\n        self.level += 1\n        self.level := 2\n", "reject"))
     return out
 
 
